@@ -66,7 +66,9 @@ def mapGroupsOk (sc : LoopScript) (k mv : Node) (ks vs : List Val) : List ObsGro
     let rec pick (ks vs : List Val) (accK accV : List Val) : Option (List Val × List Val) :=
       match ks, vs with
       | key :: ks', x :: vs' =>
+        -- no text denotes a nil pointer key: whatever is handed over as its key is accepted
         let keyOk (s : Seg) : Bool :=
+          key.isNilPtr ||
           match specKey (k.withPtr false) s with
           | .key k' => k' == key.strip
           | _ => false
